@@ -1,3 +1,236 @@
-import GoagModel.Basic
-namespace Goag.C15
-end Goag.C15
+import GoagModel.Alias
+/-
+  C15 — the part of "the generator fails cleanly instead of crashing" that is a termination
+  argument: component alias chains.  Before the repair c690caa a component that was only a
+  `$ref` to itself overflowed the stack in `refObject.Value`.  The repaired code bounds the walk
+  by the number of components and reports "reference cycle".  Theorems, for EVERY component map:
+
+  * `exhausted_is_cycle`: if the bounded walk (any fuel above the number of components) has
+    not ended, then the chain NEVER ends, whatever the fuel — "reference cycle" is never a
+    false accusation, and a spec that is refused really has no finite resolution;
+  * `accepted_resolves`: if `check` accepts, every component's chain ends at a definition
+    within `len + 2` names, so the unbounded walks that follow terminate;
+  * `walk_found_mono`: more fuel never changes an answer already found.
+  The rest of C15 (no panic anywhere in the generator, for every document the loader accepts)
+  quantifies over code that is not modelled; it is explored by fault enumeration.
+-/
+namespace Goag.Alias
+
+theorem walk_found_mono (m : CMap) (f k : Nat) (n d : String) (h : walk m f n = .found d) :
+    walk m (f + k) n = .found d := by
+  induction f generalizing n with
+  | zero => simp [walk] at h
+  | succ f ih =>
+    have : f + 1 + k = (f + k) + 1 := by omega
+    rw [this]
+    unfold walk at h ⊢
+    split <;> simp_all
+
+theorem exhausted_iff_after (m : CMap) (F : Nat) (n : String) :
+    walk m F n = .exhausted ↔ (after m F n).isSome = true := by
+  induction F generalizing n with
+  | zero => simp [walk, after]
+  | succ f ih =>
+    unfold walk after
+    split <;> simp_all
+
+theorem after_add (m : CMap) (a b : Nat) (n : String) :
+    after m (a + b) n = (after m a n).bind (after m b) := by
+  induction a generalizing n with
+  | zero => simp [after]
+  | succ a ih =>
+    have : a + 1 + b = (a + b) + 1 := by omega
+    rw [this]
+    unfold after
+    split
+    · rename_i t ht
+      simp [ih]
+    · simp
+
+/-- a chain that is still running after `k+1` hops was on a key of the map at hop `k` -/
+theorem after_key (m : CMap) (k : Nat) (n : String) (h : (after m (k + 1) n).isSome = true) :
+    ∃ x, after m k n = some x ∧ x ∈ m.map (·.1) := by
+  have hadd := after_add m k 1 n
+  rw [hadd] at h
+  cases hk : after m k n with
+  | none => simp [hk] at h
+  | some x =>
+    refine ⟨x, rfl, ?_⟩
+    simp only [hk, Option.bind_some] at h
+    unfold after at h
+    split at h
+    · rename_i t ht
+      unfold lookup at ht
+      cases hf : m.find? (·.1 == x) with
+      | none => simp [hf] at ht
+      | some e =>
+        have hm := List.mem_of_find?_eq_some hf
+        have hp := List.find?_some hf
+        simp only [beq_iff_eq] at hp
+        exact List.mem_map.mpr ⟨e, hm, hp⟩
+    · simp at h
+
+theorem nodup_sub_length : ∀ (l keys : List String), l.Nodup → (∀ x ∈ l, x ∈ keys) → l.length ≤ keys.length
+  | [], _, _, _ => by simp
+  | a :: t, keys, hnd, hsub => by
+    have ha : a ∈ keys := hsub a List.mem_cons_self
+    have hnd' := List.nodup_cons.mp hnd
+    have ht : ∀ x ∈ t, x ∈ keys.erase a := by
+      intro x hx
+      have hxa : x ≠ a := fun e => hnd'.1 (e ▸ hx)
+      exact (List.mem_erase_of_ne hxa).mpr (hsub x (List.mem_cons_of_mem _ hx))
+    have ih := nodup_sub_length t (keys.erase a) hnd'.2 ht
+    have hlen : (keys.erase a).length = keys.length - 1 := List.length_erase_of_mem ha
+    have hpos : 0 < keys.length := List.length_pos_of_mem ha
+    simp only [List.length_cons]
+    omega
+
+/-- pigeonhole: more visited positions than keys ⇒ two positions carry the same name -/
+theorem pigeon (keys : List String) (F : Nat) (g : Nat → String) (hk : ∀ k < F, g k ∈ keys)
+    (hlen : keys.length < F) : ∃ i j, i < j ∧ j < F ∧ g i = g j := by
+  by_cases h : ∃ i j, i < j ∧ j < F ∧ g i = g j
+  · exact h
+  · exfalso
+    have hne : ∀ i j, i < j → j < F → g i ≠ g j := fun i j hij hj e => h ⟨i, j, hij, hj, e⟩
+    have hnd : ((List.range F).map g).Nodup := by
+      rw [List.Nodup, List.pairwise_map]
+      refine List.Pairwise.imp_of_mem ?_ (List.pairwise_lt_range (n := F))
+      intro a b ha hb hab
+      exact hne a b hab (List.mem_range.mp hb)
+    have hsub : ∀ x ∈ (List.range F).map g, x ∈ keys := by
+      intro x hx
+      obtain ⟨k, hkm, rfl⟩ := List.mem_map.mp hx
+      exact hk k (List.mem_range.mp hkm)
+    have := nodup_sub_length _ keys hnd hsub
+    simp at this
+    omega
+
+theorem after_isSome_of_le (m : CMap) (a b : Nat) (n : String) (hab : a ≤ b)
+    (h : (after m b n).isSome = true) : (after m a n).isSome = true := by
+  have : b = a + (b - a) := by omega
+  rw [this, after_add] at h
+  cases ha : after m a n with
+  | none => simp [ha] at h
+  | some x => rfl
+
+theorem periodic (m : CMap) (p : Nat) (x : String) (hp : after m p x = some x) (q : Nat) :
+    after m (q * p) x = some x := by
+  induction q with
+  | zero => simp [after]
+  | succ q ih =>
+    have : (q + 1) * p = q * p + p := by rw [Nat.succ_mul]
+    rw [this, after_add, ih]
+    simpa using hp
+
+/-- **No false "reference cycle".** If the walk bounded by any fuel above the number of
+    components has not ended, the chain never ends: it is exhausted for every fuel. -/
+theorem exhausted_is_cycle (m : CMap) (F : Nat) (n : String) (hF : m.length < F)
+    (h : walk m F n = .exhausted) : ∀ G, walk m G n = .exhausted := by
+  have hsome : (after m F n).isSome = true := (exhausted_iff_after m F n).mp h
+  -- names at positions 0 .. F-1 are keys
+  have hkeys : ∀ k < F, ∃ x, after m k n = some x ∧ x ∈ m.map (·.1) := by
+    intro k hk
+    exact after_key m k n (after_isSome_of_le m (k + 1) F n (by omega) hsome)
+  let g : Nat → String := fun k => (after m k n).getD ""
+  have hg : ∀ k < F, g k ∈ m.map (·.1) := by
+    intro k hk
+    obtain ⟨x, hx, hmem⟩ := hkeys k hk
+    simp [g, hx, hmem]
+  obtain ⟨i, j, hij, hj, hgij⟩ := pigeon (m.map (·.1)) F g hg (by simpa using hF)
+  obtain ⟨x, hxi, _⟩ := hkeys i (by omega)
+  obtain ⟨y, hyj, _⟩ := hkeys j hj
+  have hxy : x = y := by simpa [g, hxi, hyj] using hgij
+  subst hxy
+  -- x returns to itself after p = j - i > 0 hops
+  have hp : after m (j - i) x = some x := by
+    have : j = i + (j - i) := by omega
+    rw [this, after_add, hxi] at hyj
+    simpa using hyj
+  have hall : ∀ G, (after m G x).isSome = true := by
+    intro G
+    have hq := periodic m (j - i) x hp G
+    apply after_isSome_of_le m G (G * (j - i)) x
+    · have : 1 ≤ j - i := by omega
+      calc G = G * 1 := by omega
+        _ ≤ G * (j - i) := Nat.mul_le_mul_left G this
+    · simp [hq]
+  intro G
+  rw [exhausted_iff_after]
+  by_cases hG : G ≤ i
+  · exact after_isSome_of_le m G i n hG (by simp [hxi])
+  · have : G = i + (G - i) := by omega
+    rw [this, after_add, hxi]
+    simpa using hall (G - i)
+
+theorem any_false_of_mem {α : Type} {l : List α} {p : α → Bool} (h : l.any p = false) {a : α} (ha : a ∈ l) : p a = false := by
+  rw [List.any_eq_false] at h
+  simpa using h a ha
+
+/-- a chain that starts on a key and whose alias targets all exist never dangles -/
+theorem walk_not_dangling (m : CMap) (hT : m.any (fun e => match e.2 with | some t => (lookup m t).isNone | none => false) = false)
+    (f : Nat) (n : String) (hn : (lookup m n).isSome = true) (x : String) : walk m f n ≠ .dangling x := by
+  induction f generalizing n with
+  | zero => simp [walk]
+  | succ f ih =>
+    unfold walk
+    cases hl : lookup m n with
+    | none => simp [hl] at hn
+    | some v =>
+      cases v with
+      | none => simp
+      | some t =>
+        simp only
+        apply ih
+        -- the entry found for n is (n', some t): its target exists
+        unfold lookup at hl
+        cases hf : m.find? (·.1 == n) with
+        | none => simp [hf] at hl
+        | some e =>
+          simp only [hf, Option.map_some, Option.some.injEq] at hl
+          have hm := List.mem_of_find?_eq_some hf
+          have := any_false_of_mem hT hm
+          simp only [hl] at this
+          cases hlt : lookup m t with
+          | none => simp [hlt] at this
+          | some _ => rfl
+
+/-- **Accepted maps resolve.** If `check` accepts, the chain of every component ends at a
+    definition within `len + 2` names (and, by `walk_found_mono`, with any larger fuel). -/
+theorem accepted_resolves (m : CMap) (h : check m = .ok ()) :
+    ∀ e ∈ m, ∃ d, walk m (m.length + 2) e.1 = .found d := by
+  unfold check at h
+  split at h
+  · simp at h
+  · rename_i hT
+    split at h
+    · simp at h
+    · rename_i hC
+      intro e he
+      have hT' : m.any (fun e => match e.2 with | some t => (lookup m t).isNone | none => false) = false :=
+        Bool.eq_false_iff.mpr hT
+      have hC' : m.any (fun e => walk m (m.length + 2) e.1 == .exhausted) = false :=
+        Bool.eq_false_iff.mpr hC
+      have hne : walk m (m.length + 2) e.1 ≠ .exhausted := by
+        have := any_false_of_mem hC' he
+        simpa using this
+      have hkey : (lookup m e.1).isSome = true := by
+        unfold lookup
+        cases hf : m.find? (·.1 == e.1) with
+        | none =>
+          have := List.find?_eq_none.mp hf e he
+          simp at this
+        | some _ => rfl
+      cases hw : walk m (m.length + 2) e.1 with
+      | found d => exact ⟨d, rfl⟩
+      | dangling x => exact absurd hw (walk_not_dangling m hT' _ _ hkey x)
+      | exhausted => exact absurd hw hne
+
+def verdict (m : CMap) : String := match check m with | .ok _ => "ok" | .error e => e
+
+/-- non-vacuity: a self-alias and a two-cycle are refused, a chain of two aliases is accepted -/
+example : verdict [("A", some "A")] = "reference cycle" := by decide
+example : verdict [("A", some "B"), ("B", some "A"), ("C", none)] = "reference cycle" := by decide
+example : verdict [("A", some "B"), ("B", some "C"), ("C", none)] = "ok" := by decide
+example : verdict [("A", some "Z")] = "reference not found" := by decide
+
+end Goag.Alias
